@@ -354,7 +354,11 @@ class Checker:
             if k_eff == "EDIF.identifier" and kind == "exact-caseswapped" and self.policy == "EDIF":
                 may = set(id(x) for x in U if isinstance(self.value(x, k_eff), str) and self.value(x, k_eff).lower() == p.lower())
             try:
-                got = list(f(root, p, is_case=ic, is_re=ir, **kwk))
+                if self.r.random() < 0.2:
+                    ctx.count("patterns_passed_by_keyword")
+                    got = list(f(root, patterns=p, is_case=ic, is_re=ir, **kwk))        # the documented keyword form
+                else:
+                    got = list(f(root, p, is_case=ic, is_re=ir, **kwk))
             except Exception as ex:  # noqa: BLE001
                 return self.fail("query-raised:%s:%s" % (fname, type(ex).__name__), "%s pattern %r raised %r" % (tag, p, ex))
             # R6: the method / shortcut of the same name on the root element answers like the module-level function
